@@ -37,7 +37,7 @@ public:
     constexpr mapping(extents_type const& ext, span<OtherIndexType, rank> s) noexcept
         : _extents(ext)
         , _strides([&]<size_t... Is>(index_sequence<Is...> /*seq*/) {
-            return array{static_cast<index_type>(etl::as_const(s[Is]))...};
+            return array<index_type, rank>{static_cast<index_type>(etl::as_const(s[Is]))...};
         }(make_index_sequence<rank>()))
     {
     }
